@@ -27,6 +27,18 @@ CLAIMS = {
         "Trusts the generators' coverage of each version grammar; RubyGems prerelease versions and wildcard patterns are outside the domain as the property states.",
         "DESIGN.md §7 C10",
     ),
+    "C02": (
+        "differential property-based testing (rapid) against live reference implementations (node-semver, packaging, Rust semver, x/mod/semver, Maven ComparableVersion) and harness reference models (Gem::Version, NuGet SemVer2)",
+        "Generated-input search with an independent oracle: grammar-generated, neighbour-mutated version pairs per ecosystem are ordered by the library and by the ecosystem's own implementation running side by side; orders must coincide on every pair both accept, and the reference's normal form must parse. Holds on everything explored; not a proof.",
+        "Trusts the reference tools installed in the sandbox (node-semver 7.x cross-checked with 5.7.1, packaging 26.x cross-checked with pip's vendored 21.3, semver crate 1.0.28, x/mod 0.22, maven-artifact 3.8.7 on the sub-domain where it coincides with the documented 3.6.0/3.8.6 rules) and the two harness transcriptions (RubyGems, NuGet). Four listed findings are stepped around by narrow classes.",
+        "DESIGN.md §7 C02, §4",
+    ),
+    "C11": (
+        "property-based testing (rapid): round-trip oracle ParseSetConstraint(Set.String()) over generated constraints and boundary-derived versions; native Go fuzzing in the thorough tier",
+        "Generated-input search: grammar-generated constraints (Default, NPM, Cargo, Go, NuGet) are printed as sets, parsed back with ParseSetConstraint, required to print identically and to match exactly the same boundary-derived and random versions under prerelease-inclusive matching. Holds on everything explored; not a proof.",
+        "Trusts the generators' coverage of each constraint grammar; one listed finding (component equal to 2^63-2) is stepped around by a narrow class.",
+        "DESIGN.md §7 C11",
+    ),
 }
 
 NOT_YET = "check under construction in this session (not yet claimed)"
